@@ -140,9 +140,12 @@ def zero_length_read_mode():
     from hyperlink import DecodedURL
     sent = []
 
+    from twisted.web.http_headers import Headers
+
     class Resp:
         code = 404
         phrase = b"NOT FOUND"
+        headers = Headers({"content-type": ["application/octet-stream"]})
 
     class StubClient:
         _clock = None
